@@ -174,10 +174,11 @@ pub fn catch<R>(f: impl FnOnce() -> R) -> Result<R, String> {
 #[macro_export]
 macro_rules! has_impl {
     ($ty:ty : $($bound:tt)+) => {{
-        struct Probe<X: ?Sized>(::core::marker::PhantomData<X>);
+        // (absolute paths: macro_rules paths resolve at the call site, which may shadow `Sized`)
+        struct Probe<X: ?::core::marker::Sized>(::core::marker::PhantomData<X>);
         trait Fallback { fn has(&self) -> bool { false } }
-        impl<X: ?Sized> Fallback for Probe<X> {}
-        impl<X: ?Sized + $($bound)+> Probe<X> { fn has(&self) -> bool { true } }
+        impl<X: ?::core::marker::Sized> Fallback for Probe<X> {}
+        impl<X: ?::core::marker::Sized + $($bound)+> Probe<X> { fn has(&self) -> bool { true } }
         Probe::<$ty>(::core::marker::PhantomData).has()
     }};
 }
